@@ -921,4 +921,445 @@ instance (m : Mode) (ps : List Piece) : Decidable (SafePieces m ps) := decSafePi
 instance (m : Mode) (segs : List Seg) : Decidable (SafeSegs m segs) := by
   unfold SafeSegs; infer_instance
 
+/-! ## association-list algebra for the post-compile loop -/
+
+theorem alookup_aset_self {β : Type} (k : Str) (v : β) (d : List (Str × β)) :
+    alookup k (aset k v d) = some v := by
+  induction d with
+  | nil => simp [aset, alookup]
+  | cons x d ih =>
+    obtain ⟨k', v'⟩ := x
+    by_cases h : k' = k
+    · subst h; simp [aset, alookup]
+    · simp [aset, alookup, h, ih]
+
+theorem alookup_aset_ne {β : Type} (k k' : Str) (v : β) (d : List (Str × β)) (h : k' ≠ k) :
+    alookup k (aset k' v d) = alookup k d := by
+  induction d with
+  | nil => simp [aset, alookup, h]
+  | cons x d ih =>
+    obtain ⟨a, b⟩ := x
+    by_cases ha : a = k'
+    · subst ha; simp [aset, alookup, h]
+    · by_cases hk : a = k
+      · subst hk; simp [aset, alookup, ha]
+      · simp [aset, alookup, ha, hk, ih]
+
+theorem alookup_aremove_ne {β : Type} (k k' : Str) (d : List (Str × β)) (h : k' ≠ k) :
+    alookup k (aremove k' d) = alookup k d := by
+  induction d with
+  | nil => rfl
+  | cons x d ih =>
+    obtain ⟨a, b⟩ := x
+    by_cases ha : a = k'
+    · subst ha; simp [aremove, alookup, h]
+    · by_cases hk : a = k
+      · subst hk; simp [aremove, alookup, ha]
+      · simp [aremove, alookup, ha, hk, ih]
+
+theorem alookup_foldl_aset_not_mem (k : Str) (tu : List (Str × Str)) :
+    ∀ d : List (Str × PVal), k ∉ tu.map (·.1) →
+      alookup k (tu.foldl (fun d kv => aset kv.1 (PVal.one kv.2) d) d) = alookup k d := by
+  induction tu with
+  | nil => intro d _; rfl
+  | cons x tu ih =>
+    intro d h
+    obtain ⟨a, b⟩ := x
+    simp only [List.map_cons, List.mem_cons, not_or] at h
+    simp only [List.foldl_cons]
+    rw [ih _ h.2, alookup_aset_ne _ _ _ _ (fun e => h.1 e.symm)]
+
+theorem alookup_foldl_aset_mem (tu : List (Str × Str)) (hnd : (tu.map (·.1)).Nodup) :
+    ∀ (d : List (Str × PVal)) (i : Nat) (kv : Str × Str), tu[i]? = some kv →
+      alookup kv.1 (tu.foldl (fun d kv => aset kv.1 (PVal.one kv.2) d) d) = some (PVal.one kv.2) := by
+  induction tu with
+  | nil => intro d i kv h; simp at h
+  | cons x tu ih =>
+    intro d i kv h
+    simp only [List.map_cons, List.nodup_cons] at hnd
+    simp only [List.foldl_cons]
+    cases i with
+    | zero =>
+      simp at h; subst h
+      rw [alookup_foldl_aset_not_mem _ _ _ hnd.1, alookup_aset_self]
+    | succ n =>
+      simp only [List.getElem?_cons_succ] at h
+      exact ih hnd.2 _ n kv h
+
+/-! ## the post-compile loop (positional, non-numeric styles, no escaped names) -/
+
+def contrib (c : Compiled) (st : Style) (params0 : List (Str × PVal)) (n : Str) :
+    List (Str × PVal) :=
+  match c.kindOf n, alookup n params0 with
+  | some b, some (.many vs) =>
+    if b.kind = .expanding then (leep st b n vs).1.map (fun kv => (kv.1, PVal.one kv.2)) else []
+  | some b, some (.one v) => if b.kind = .plain then [(n, PVal.one v)] else []
+  | _, _ => []
+
+def NameOk (c : Compiled) (params0 : List (Str × PVal)) (n : Str) : Prop :=
+  (∃ b v, c.kindOf n = some b ∧ b.kind = .plain ∧ alookup n params0 = some (.one v)) ∨
+  (∃ b vs, c.kindOf n = some b ∧ b.kind = .expanding ∧ alookup n params0 = some (.many vs))
+
+def isExpanding (c : Compiled) (n : Str) : Bool :=
+  match c.kindOf n with
+  | some b => b.kind = .expanding
+  | none => false
+
+structure LoopInv (c : Compiled) (st : Style) (params0 : List (Str × PVal))
+    (done : List Str) (s : PCState) : Prop where
+  newPos : s.newPos = (done.flatMap (contrib c st params0)).map (·.1)
+  numPos : s.numPos = []
+  replKeys : ∀ k, k ∈ akeys s.repl → k ∈ done ∧ isExpanding c k = true
+  repl : ∀ n ∈ done, ∀ b vs, c.kindOf n = some b → b.kind = .expanding →
+    alookup n params0 = some (.many vs) → alookup n s.repl = some (leep st b n vs).2
+  generated : ∀ kv ∈ done.flatMap (contrib c st params0),
+    (kv.1 ∉ done ∨ isExpanding c kv.1 = false) → alookup kv.1 s.params = some kv.2
+  untouched : ∀ k, k ∉ (done.flatMap (contrib c st params0)).map (·.1) →
+    (k ∉ done ∨ isExpanding c k = false) → alookup k s.params = alookup k params0
+
+/-- the global freshness assumptions (finding `expanded-name-clashes-with-bind-name`
+    is what happens without them) -/
+structure NoClash (c : Compiled) (st : Style) (params0 : List (Str × PVal))
+    (names : List Str) : Prop where
+  names_nodup : names.Nodup
+  keys_nodup : ((names.flatMap (contrib c st params0)).map (·.1)).Nodup
+  fresh : ∀ n ∈ names, isExpanding c n = true → ∀ kv ∈ contrib c st params0 n, kv.1 ∉ names
+
+theorem akeys_aset {β : Type} (k : Str) (v : β) (d : List (Str × β)) :
+    ∀ x, x ∈ akeys (aset k v d) → x ∈ akeys d ∨ x = k := by
+  induction d with
+  | nil => intro x h; simp [aset, akeys] at h; right; exact h
+  | cons y d ih =>
+    obtain ⟨a, b⟩ := y
+    intro x h
+    by_cases ha : a = k
+    · subst ha
+      simp only [aset, if_true, akeys, List.map_cons, List.mem_cons] at h ⊢
+      rcases h with h | h
+      · left; left; exact h
+      · left; right; exact h
+    · simp only [aset, ha, if_false, akeys, List.map_cons, List.mem_cons] at h ⊢
+      rcases h with h | h
+      · left; left; exact h
+      · rcases ih x (by simpa [akeys] using h) with h2 | h2
+        · left; right; simpa [akeys] using h2
+        · right; exact h2
+
+theorem contrib_plain {c : Compiled} {st : Style} {params0 : List (Str × PVal)} {n : Str}
+    {b : BindInfo} {v : Str} (hk : c.kindOf n = some b) (hp : b.kind = .plain)
+    (hv : alookup n params0 = some (.one v)) : contrib c st params0 n = [(n, .one v)] := by
+  simp [contrib, hk, hv, hp]
+
+theorem contrib_expanding {c : Compiled} {st : Style} {params0 : List (Str × PVal)} {n : Str}
+    {b : BindInfo} {vs : List Str} (hk : c.kindOf n = some b) (hp : b.kind = .expanding)
+    (hv : alookup n params0 = some (.many vs)) :
+    contrib c st params0 n = (leep st b n vs).1.map (fun kv => (kv.1, PVal.one kv.2)) := by
+  simp [contrib, hk, hv, hp]
+
+theorem pcStep_plain (c : Compiled) (st : Style) (s : PCState) (n : Str) (b : BindInfo)
+    (hk : c.kindOf n = some b) (hp : b.kind = .plain)
+    (hpos : st.positional = true) :
+    pcStep c st s n = .ok { s with newPos := s.newPos ++ [n] } := by
+  unfold pcStep
+  simp [hk, hp, hpos]
+
+theorem pcStep_expanding (c : Compiled) (st : Style) (s : PCState) (n : Str) (b : BindInfo)
+    (vs : List Str)
+    (hesc : c.escaped = []) (hk : c.kindOf n = some b) (hp : b.kind = .expanding)
+    (hr : alookup n s.repl = none) (hv : alookup n s.params = some (.many vs))
+    (hpos : st.positional = true) (hnum : st.isNumeric = false) :
+    pcStep c st s n =
+      .ok { s with
+            params := (leep st b n vs).1.foldl (fun d kv => aset kv.1 (PVal.one kv.2) d)
+                        (aremove n s.params),
+            toUpd := aset n (leep st b n vs).1 s.toUpd,
+            repl := aset n (leep st b n vs).2 s.repl,
+            newPos := s.newPos ++ (leep st b n vs).1.map (·.1) } := by
+  unfold pcStep
+  simp [hesc, hk, hp, hr, hv, hpos, hnum]
+
+
+theorem isExpanding_of {c : Compiled} {n : Str} {b : BindInfo} (hk : c.kindOf n = some b) :
+    isExpanding c n = decide (b.kind = .expanding) := by
+  simp [isExpanding, hk]
+
+theorem step_plain (c : Compiled) (st : Style) (params0 : List (Str × PVal)) (done : List Str)
+    (s : PCState) (n : Str) (b : BindInfo) (v : Str)
+    (hnd : n ∉ done)
+    (hdk : ((done ++ [n]).flatMap (contrib c st params0)).map (·.1) |>.Nodup)
+    (hinv : LoopInv c st params0 done s)
+    (hk : c.kindOf n = some b) (hp : b.kind = .plain) (hv : alookup n params0 = some (.one v)) :
+    LoopInv c st params0 (done ++ [n]) { s with newPos := s.newPos ++ [n] } := by
+  have hc := contrib_plain (st := st) hk hp hv
+  have hne : isExpanding c n = false := by rw [isExpanding_of hk]; simp [hp]
+  have hfm : (done ++ [n]).flatMap (contrib c st params0) =
+      done.flatMap (contrib c st params0) ++ [(n, PVal.one v)] := by
+    simp [List.flatMap_append, hc]
+  have hnk : n ∉ (done.flatMap (contrib c st params0)).map (·.1) := by
+    rw [hfm] at hdk
+    simp only [List.map_append, List.map_cons, List.map_nil] at hdk
+    have := (List.nodup_append.mp hdk).2.2
+    intro hm
+    exact this n hm n (by simp) rfl
+  refine ⟨?_, hinv.numPos, ?_, ?_, ?_, ?_⟩
+  · simp only [hfm, List.map_append, List.map_cons, List.map_nil, hinv.newPos]
+  · intro k hkk
+    obtain ⟨h1, h2⟩ := hinv.replKeys k hkk
+    exact ⟨by simp [h1], h2⟩
+  · intro m hm b' vs hk' hp' hv'
+    simp only [List.mem_append, List.mem_singleton] at hm
+    rcases hm with hm | hm
+    · exact hinv.repl m hm b' vs hk' hp' hv'
+    · subst hm
+      rw [hk] at hk'; cases hk'
+      rw [hp] at hp'; cases hp'
+  · intro kv hkv hcond
+    rw [hfm] at hkv
+    simp only [List.mem_append, List.mem_singleton] at hkv
+    rcases hkv with hkv | hkv
+    · apply hinv.generated kv hkv
+      rcases hcond with h | h
+      · left; intro hd; exact h (by simp [hd])
+      · right; exact h
+    · subst hkv
+      simp only
+      rw [hinv.untouched n hnk (Or.inl hnd), hv]
+  · intro k hk1 hk2
+    apply hinv.untouched k
+    · intro hm; apply hk1; rw [hfm]; simp [hm]
+    · rcases hk2 with h | h
+      · left; intro hd; exact h (by simp [hd])
+      · right; exact h
+
+
+theorem step_expanding (c : Compiled) (st : Style) (params0 : List (Str × PVal))
+    (done : List Str) (s : PCState) (n : Str) (b : BindInfo) (vs : List Str)
+    (hnd : n ∉ done)
+    (hdk : ((done ++ [n]).flatMap (contrib c st params0)).map (·.1) |>.Nodup)
+    (hnk : n ∉ (done.flatMap (contrib c st params0)).map (·.1))
+    (hfresh : ∀ kv ∈ contrib c st params0 n, kv.1 ≠ n)
+    (hinv : LoopInv c st params0 done s)
+    (hk : c.kindOf n = some b) (hp : b.kind = .expanding)
+    (hv : alookup n params0 = some (.many vs)) :
+    alookup n s.repl = none ∧ alookup n s.params = some (.many vs) ∧
+    LoopInv c st params0 (done ++ [n])
+      { s with
+        params := (leep st b n vs).1.foldl (fun d kv => aset kv.1 (PVal.one kv.2) d)
+                    (aremove n s.params),
+        toUpd := aset n (leep st b n vs).1 s.toUpd,
+        repl := aset n (leep st b n vs).2 s.repl,
+        newPos := s.newPos ++ (leep st b n vs).1.map (·.1) } := by
+  have hc := contrib_expanding (st := st) hk hp hv
+  have hex : isExpanding c n = true := by rw [isExpanding_of hk]; simp [hp]
+  have hfm : (done ++ [n]).flatMap (contrib c st params0) =
+      done.flatMap (contrib c st params0) ++ contrib c st params0 n := by
+    simp [List.flatMap_append]
+  have hkeys : (contrib c st params0 n).map (·.1) = (leep st b n vs).1.map (·.1) := by
+    rw [hc]; simp [Function.comp_def]
+  have hdk' := hdk
+  rw [hfm] at hdk'
+  simp only [List.map_append] at hdk'
+  have hdisj : ∀ k, k ∈ (done.flatMap (contrib c st params0)).map (·.1) →
+      k ∉ (leep st b n vs).1.map (·.1) := by
+    intro k h1 h2
+    rw [← hkeys] at h2
+    exact (List.nodup_append.mp hdk').2.2 k h1 k h2 rfl
+  have htund : ((leep st b n vs).1.map (·.1)).Nodup := by
+    rw [← hkeys]; exact (List.nodup_append.mp hdk').2.1
+  have hnt : n ∉ (leep st b n vs).1.map (·.1) := by
+    intro hm
+    rw [← hkeys] at hm
+    obtain ⟨kv, hkv, he⟩ := List.mem_map.mp hm
+    exact hfresh kv hkv he
+  have hrn : alookup n s.repl = none := by
+    apply alookup_none_of_not_mem
+    intro hm
+    exact hnd (hinv.replKeys n hm).1
+  have hpn : alookup n s.params = some (.many vs) := by
+    rw [hinv.untouched n hnk (Or.inl hnd), hv]
+  refine ⟨hrn, hpn, ?_, hinv.numPos, ?_, ?_, ?_, ?_⟩
+  · simp only [hfm, List.map_append, hinv.newPos, hkeys]
+  · intro k hkk
+    rcases akeys_aset _ _ _ k hkk with h | h
+    · obtain ⟨h1, h2⟩ := hinv.replKeys k h
+      exact ⟨by simp [h1], h2⟩
+    · subst h; exact ⟨by simp, hex⟩
+  · intro m hm b' vs' hk' hp' hv'
+    simp only [List.mem_append, List.mem_singleton] at hm
+    by_cases hmn : m = n
+    · subst hmn
+      rw [hk] at hk'; cases hk'
+      rw [hv] at hv'; cases hv'
+      exact alookup_aset_self _ _ _
+    · rcases hm with hm | hm
+      · simp only []
+        rw [alookup_aset_ne _ _ _ _ (fun e => hmn e.symm)]
+        exact hinv.repl m hm b' vs' hk' hp' hv'
+      · exact absurd hm hmn
+  · intro kv hkv hcond
+    rw [hfm] at hkv
+    simp only [List.mem_append] at hkv
+    simp only []
+    rcases hkv with hkv | hkv
+    · -- an earlier key: untouched by this step
+      have hk1 : kv.1 ∈ (done.flatMap (contrib c st params0)).map (·.1) :=
+        List.mem_map.mpr ⟨kv, hkv, rfl⟩
+      have hne : kv.1 ≠ n := fun e => hnk (e ▸ hk1)
+      rw [alookup_foldl_aset_not_mem _ _ _ (hdisj _ hk1), alookup_aremove_ne _ _ _ (fun e => hne e.symm)]
+      apply hinv.generated kv hkv
+      rcases hcond with h | h
+      · left; intro hd; exact h (by simp [hd])
+      · right; exact h
+    · rw [hc] at hkv
+      obtain ⟨x, hx, rfl⟩ := List.mem_map.mp hkv
+      obtain ⟨i, hi⟩ := List.getElem?_of_mem hx
+      exact alookup_foldl_aset_mem _ htund _ i x hi
+  · intro k hk1 hk2
+    simp only []
+    have hkn : k ≠ n := by
+      intro e; subst e
+      rcases hk2 with h | h
+      · exact h (by simp)
+      · rw [hex] at h; cases h
+    have hk1' : k ∉ (done.flatMap (contrib c st params0)).map (·.1) ∧
+        k ∉ (leep st b n vs).1.map (·.1) := by
+      rw [hfm] at hk1
+      simp only [List.map_append, List.mem_append, not_or] at hk1
+      exact ⟨hk1.1, by rw [← hkeys]; exact hk1.2⟩
+    rw [alookup_foldl_aset_not_mem _ _ _ hk1'.2, alookup_aremove_ne _ _ _ (fun e => hkn e.symm)]
+    apply hinv.untouched k hk1'.1
+    rcases hk2 with h | h
+    · left; intro hd; exact h (by simp [hd])
+    · right; exact h
+
+
+theorem contrib_keys_of_plain {c : Compiled} {st : Style} {params0 : List (Str × PVal)} {m : Str}
+    (h : ∃ b v, c.kindOf m = some b ∧ b.kind = .plain ∧ alookup m params0 = some (.one v)) :
+    ∀ kv ∈ contrib c st params0 m, kv.1 = m := by
+  obtain ⟨b, v, hk, hp, hv⟩ := h
+  intro kv hkv
+  rw [contrib_plain hk hp hv] at hkv
+  simp at hkv; rw [hkv]
+
+theorem pcLoop_inv (c : Compiled) (st : Style) (params0 : List (Str × PVal)) (names : List Str)
+    (hesc : c.escaped = []) (hpos : st.positional = true) (hnum : st.isNumeric = false)
+    (hnc : NoClash c st params0 names) (hok : ∀ n ∈ names, NameOk c params0 n) :
+    ∀ (rest done : List Str) (s : PCState), done ++ rest = names →
+      LoopInv c st params0 done s →
+      ∃ s', pcLoop c st rest s = .ok s' ∧ LoopInv c st params0 names s' := by
+  intro rest
+  induction rest with
+  | nil =>
+    intro done s he hinv
+    simp at he; subst he
+    exact ⟨s, rfl, hinv⟩
+  | cons n rest ih =>
+    intro done s he hinv
+    have hn : n ∈ names := by rw [← he]; simp
+    have hsub : ∀ x ∈ done, x ∈ names := by intro x hx; rw [← he]; simp [hx]
+    have hnd : n ∉ done := by
+      have := hnc.names_nodup
+      rw [← he] at this
+      have h2 := (List.nodup_append.mp this).2.2
+      intro hd
+      exact h2 n hd n (by simp) rfl
+    have he' : (done ++ [n]) ++ rest = names := by rw [← he]; simp
+    have hdk : (((done ++ [n]).flatMap (contrib c st params0)).map (·.1)).Nodup := by
+      have := hnc.keys_nodup
+      rw [← he', List.flatMap_append, List.map_append] at this
+      exact (List.nodup_append.mp this).1
+    rcases hok n hn with ⟨b, v, hk, hp, hv⟩ | ⟨b, vs, hk, hp, hv⟩
+    · have hstep := pcStep_plain c st s n b hk hp hpos
+      have hinv' := step_plain c st params0 done s n b v hnd hdk hinv hk hp hv
+      obtain ⟨s', hs', hi'⟩ := ih (done ++ [n]) _ he' hinv'
+      exact ⟨s', by simp only [pcLoop, hstep]; exact hs', hi'⟩
+    · have hex : isExpanding c n = true := by rw [isExpanding_of hk]; simp [hp]
+      have hfresh : ∀ kv ∈ contrib c st params0 n, kv.1 ≠ n := by
+        intro kv hkv e
+        exact hnc.fresh n hn hex kv hkv (e ▸ hn)
+      have hnk : n ∉ (done.flatMap (contrib c st params0)).map (·.1) := by
+        intro hm
+        obtain ⟨kv, hkv, hkn⟩ := List.mem_map.mp hm
+        obtain ⟨m, hmd, hkm⟩ := List.mem_flatMap.mp hkv
+        rcases hok m (hsub m hmd) with hpl | ⟨b', vs', hk', hp', hv'⟩
+        · have := contrib_keys_of_plain (st := st) hpl kv hkm
+          rw [hkn] at this
+          exact hnd (this ▸ hmd)
+        · have hexm : isExpanding c m = true := by rw [isExpanding_of hk']; simp [hp']
+          exact hnc.fresh m (hsub m hmd) hexm kv hkm (hkn ▸ hn)
+      obtain ⟨hrn, hpn, hinv'⟩ := step_expanding c st params0 done s n b vs hnd hdk hnk hfresh hinv hk hp hv
+      have hstep := pcStep_expanding c st s n b vs hesc hk hp hrn hpn hpos hnum
+      obtain ⟨s', hs', hi'⟩ := ih (done ++ [n]) _ he' hinv'
+      exact ⟨s', by simp only [pcLoop, hstep]; exact hs', hi'⟩
+
+theorem LoopInv.init (c : Compiled) (st : Style) (params0 : List (Str × PVal)) :
+    LoopInv c st params0 []
+      { params := params0, repl := [], toUpd := [], newPos := [], numPos := [] } :=
+  ⟨rfl, rfl, by intro k h; simp [akeys] at h, by intro n h; simp at h,
+   by intro kv h; simp at h, by intro k _ _; rfl⟩
+
+theorem collectPos_pairs (params : List (Str × PVal)) :
+    ∀ l : List (Str × PVal), (∀ kv ∈ l, alookup kv.1 params = some kv.2) →
+      collectPos params (l.map (·.1)) = .ok (l.map (·.2)) := by
+  intro l
+  induction l with
+  | nil => intro _; rfl
+  | cons x l ih =>
+    intro h
+    simp only [List.map_cons, collectPos, h x (by simp), ih (fun kv hkv => h kv (by simp [hkv]))]
+    rfl
+
+/-- the stage-1 statement as segments: bind segments have become placeholder text -/
+def posSegs (ph : Str) : List Seg → List Seg
+  | [] => []
+  | .bind _ :: r => .text ph :: posSegs ph r
+  | .text t :: r => .text t :: posSegs ph r
+  | .pc n g :: r => .pc n g :: posSegs ph r
+
+theorem posString_eq (ph : Str) (segs : List Seg) :
+    posString ph segs = renderSegs (posSegs ph segs) := by
+  induction segs with
+  | nil => rfl
+  | cons s r ih => cases s <;> simp [posString, posSegs, renderSegs, Seg.render, ih]
+
+/-- the statement after expansion: every post-compile token replaced by `R name` -/
+def expString (ph : Str) (R : Str → Str) : List Seg → Str
+  | [] => []
+  | .text t :: r => t ++ expString ph R r
+  | .bind _ :: r => ph ++ expString ph R r
+  | .pc n _ :: r => R n ++ expString ph R r
+
+theorem subExpanding_lits (repl : List (Str × Str)) (t : Str) (rest : List Tok) :
+    subExpanding repl (t.map Tok.lit ++ rest) = (subExpanding repl rest).map (t ++ ·) := by
+  induction t with
+  | nil => cases h : subExpanding repl rest <;> simp [h, Except.map]
+  | cons c t ih =>
+    simp only [List.map_cons, List.cons_append, subExpanding, ih]
+    cases h : subExpanding repl rest <;> simp [Except.map]
+
+theorem subExpanding_posSegs (ph : Str) (repl : List (Str × Str)) (R : Str → Str) :
+    ∀ segs : List Seg,
+      (∀ n g, Seg.pc n g ∈ segs → g = none ∧ alookup n repl = some (R n)) →
+      subExpanding repl (pieceToks ((posSegs ph segs).map (Seg.toPiece .onlyB))) =
+        .ok (expString ph R segs) := by
+  intro segs
+  induction segs with
+  | nil => intro _; rfl
+  | cons s r ih =>
+    intro h
+    have hr := ih (fun n g hm => h n g (by simp [hm]))
+    cases s with
+    | text t =>
+      simp only [posSegs, List.map_cons, Seg.toPiece, pieceToks, subExpanding_lits, hr, expString]
+      rfl
+    | bind n =>
+      simp only [posSegs, List.map_cons, Seg.toPiece, pieceToks, subExpanding_lits, hr, expString]
+      rfl
+    | pc n g =>
+      obtain ⟨hg, hl⟩ := h n g (by simp)
+      subst hg
+      simp only [posSegs, List.map_cons, Seg.toPiece, reduceCtorEq, if_false, pieceToks,
+        subExpanding, Hit.name, hl, hr, expString]
+      rfl
+
 end SaVerif.Bind
